@@ -152,6 +152,8 @@ pub fn check_mutators(maxn: usize) -> (usize, usize, Vec<PFail>) {
     for n in 0..=maxn {
         for (tx, grow) in [(false, false), (true, false), (true, true)] {
             // grow: the transaction first appends two items, so that indices beyond the pre-transaction length are in range
+            // submode: 0 = a subscriber is alive, 1 = nobody ever subscribed, 2 = the only subscriber was dropped
+            for submode in 0..3usize {
             for opk in 0..11usize {
                 let idxs: Vec<usize> = if (6..=9).contains(&opk) { (0..=n + 2).collect() } else { vec![0] };
                 for i in idxs {
@@ -159,6 +161,14 @@ pub fn check_mutators(maxn: usize) -> (usize, usize, Vec<PFail>) {
                     let mut ob = ObservableVector::<It>::new();
                     ob.append(vecof(n));
                     let mut sub = ob.subscribe().into_stream();
+                    if submode == 1 {
+                        // replace by a vector nobody ever subscribed to (the stream above belongs to the old one and stays silent)
+                        ob = ObservableVector::<It>::new();
+                        ob.append(vecof(n));
+                    } else if submode == 2 {
+                        let other = ObservableVector::<It>::new();
+                        sub = other.subscribe().into_stream(); // drops the only subscriber of `ob`
+                    }
                     let s: Vec<u32> = (0..n as u32).collect();
                     let nv = It::new(50);
                     // reference: (new contents, returned value) or None = panic
@@ -235,7 +245,7 @@ pub fn check_mutators(maxn: usize) -> (usize, usize, Vec<PFail>) {
                         }
                     }
                     kinds.insert((name, tx, panics, n == 0));
-                    let inp = serde_json::json!({"kind": "mutators", "vector_len": n, "op": name, "index": i, "in_transaction": tx, "transaction_appends_two_items_first": grow});
+                    let inp = serde_json::json!({"kind": "mutators", "vector_len": n, "op": name, "index": i, "in_transaction": tx, "transaction_appends_two_items_first": grow, "subscriber": (["alive", "never", "dropped"][submode])});
                     let r = catch_unwind(AssertUnwindSafe(|| -> (Option<u32>, Vec<u32>) {
                         macro_rules! go {
                             ($t:expr) => {{
@@ -313,6 +323,7 @@ pub fn check_mutators(maxn: usize) -> (usize, usize, Vec<PFail>) {
                 }
             }
         }
+    }
     }
     // (2) traversal: every per-element decision sequence, via entries() and for_each(), directly and in a transaction
     let decs = [Dec::Keep, Dec::Set, Dec::Remove, Dec::SetRemove, Dec::Stop];
